@@ -1,4 +1,5 @@
 use vstd::prelude::*;
+use vstd::iset::*;
 use vstd::arithmetic::power2::*;
 use std::cmp::Ordering;
 verus! {
@@ -30,14 +31,38 @@ spec fn from_slots_pre(lg_size: u8, num_items: u32, slots: Seq<u32>) -> bool {
     &&& forall|i: int| 0 <= i < num_items ==> slots[i] != EMPTY && (#[trigger] slots[i] as int) < pow2((6 + lg_size) as nat)
     &&& forall|i: int, j: int| 0 <= i < j < num_items ==> slots[i] != slots[j]
 }
+// the table invariant and view: definitions VERBATIM from contracts/cpc_pairtable.rs / contracts/cpc_codec.rs (so the contract links are literal)
+spec fn probe_at(p0: int, s: int, j: int, size: int) -> int { (p0 + j * s) % size }
+spec fn phome(item: u32, nvb: u8, lg: u8) -> int { (item >> ((nvb - lg) as u32)) as int }
+spec fn ppos(item: u32, nvb: u8, lg: u8, j: int, size: int) -> int { probe_at(phome(item, nvb, lg), 1, j, size) }
+spec fn pocc(ss: Seq<u32>) -> Set<int> { Set::range(0, ss.len() as int).filter(|i: int| ss[i] != EMPTY) }
+spec fn pfull_before(ss: Seq<u32>, item: u32, nvb: u8, lg: u8, j: int) -> bool {
+    forall|t: int| 0 <= t < j ==> ss[#[trigger] ppos(item, nvb, lg, t, ss.len() as int)] != EMPTY
+}
+spec fn preach_at(ss: Seq<u32>, nvb: u8, lg: u8, i: int) -> bool {
+    exists|j: int| 0 <= j < ss.len() && i == ppos(ss[i], nvb, lg, j, ss.len() as int) && #[trigger] pfull_before(ss, ss[i], nvb, lg, j)
+}
+spec fn pshape(ss: Seq<u32>, nvb: u8, lg: u8) -> bool { 2 <= lg <= 26 && lg < nvb <= 32 && ss.len() == pow2(lg as nat) }
+spec fn ptbl_ok(ss: Seq<u32>, nvb: u8, lg: u8) -> bool {
+    &&& pshape(ss, nvb, lg)
+    &&& forall|i: int| 0 <= i < ss.len() && ss[i] != EMPTY ==> (#[trigger] ss[i] as int) < pow2(nvb as nat)
+    &&& forall|i: int, j: int| 0 <= i < ss.len() && 0 <= j < ss.len() && i != j && ss[i] != EMPTY ==> ss[i] != ss[j]
+    &&& forall|i: int| 0 <= i < ss.len() && ss[i] != EMPTY ==> #[trigger] preach_at(ss, nvb, lg, i)
+}
+spec fn pholds(ss: Seq<u32>, item: u32) -> bool { exists|i: int| 0 <= i < ss.len() && ss[i] == item }
 impl PairTable {
-    uninterp spec fn wf(&self) -> bool;
-    uninterp spec fn holds(&self, x: u32) -> bool;
+    spec fn wf(&self) -> bool {
+        &&& ptbl_ok(self.slots@, self.num_valid_bits, self.lg_size)
+        &&& self.num_items == pocc(self.slots@).len()
+        &&& 4 * self.num_items <= 3 * self.slots@.len()
+    }
+    // VERBATIM the abstract view of contracts/cpc_codec.rs / contracts/cpc_pairtable.rs (the set of items held)
+    spec fn items(&self) -> ISet<u32> { ISet::new(|c: u32| c != EMPTY && pholds(self.slots@, c)) }
     // contract of contracts/cpc_codec.rs (the asserts of the real body are the precondition)
     #[verifier::external_body]
     fn new(lg_size: u8, num_valid_bits: u8) -> (r: Self)
       requires 2 <= lg_size <= 26, lg_size + 1 <= num_valid_bits <= 32
-      ensures r.wf(), r.lg_size == lg_size, r.num_valid_bits == num_valid_bits, r.num_items == 0, forall|x: u32| !r.holds(x)
+      ensures r.wf(), r.lg_size == lg_size, r.num_valid_bits == num_valid_bits, r.num_items == 0, r.items() =~= ISet::<u32>::empty()
     { unimplemented!() }
     // contract of contracts/cpc_codec.rs, PROVED there on the real body; the three content clauses are folded into from_slots_pre
     #[verifier::external_body]
@@ -46,7 +71,7 @@ impl PairTable {
         num_items <= slots@.len(),
         /*@C14.cpc.decode.from_slots_pre*/ from_slots_pre(lg_size, num_items, slots@),
       ensures r.wf(), r.num_valid_bits == 6 + lg_size, r.num_items == num_items,
-        forall|x: u32| #[trigger] r.holds(x) <==> (exists|i: int| 0 <= i < num_items && slots@[i] == x),
+        forall|x: u32| #[trigger] r.items().contains(x) <==> (exists|i: int| 0 <= i < num_items && slots@[i] == x),
     { unimplemented!() }
 }
 
@@ -561,9 +586,10 @@ impl CompressedState {
       requires decode_validated(*self, lg_k),
       ensures uncompressed_shape(r, lg_k, flavor_spec(lg_k, num_coupons)),
         flavor_spec(lg_k, num_coupons) is Empty ==> r.table.num_items == 0,
+        /*@C13.cpc.decode.sparse_count*/ flavor_spec(lg_k, num_coupons) is Sparse ==> r.table.num_items == self.table_num_entries,
         // the clause unit cpc_codec ASSUMES of `uncompress`: no table entry inside the window columns (pinned: `+= 8` after the column assert;
         // sliding: permutation into [0,56) then rotation by offset + 8; hybrid: columns < 8 go to the window)
-        /*@C13.cpc.decode.table_cols*/ dco(lg_k, num_coupons) <= 56 && r.window@.len() != 0 ==> forall|x: u32| r.table.holds(x) ==> !(dco(lg_k, num_coupons) <= (x & 63) < dco(lg_k, num_coupons) + 8),
+        /*@C13.cpc.decode.table_cols*/ dco(lg_k, num_coupons) <= 56 && r.window@.len() != 0 ==> forall|x: u32| r.table.items().contains(x) ==> !(dco(lg_k, num_coupons) <= (x & 63) < dco(lg_k, num_coupons) + 8),
     {
         proof { if 8 * (num_coupons as int) < 27 * pow2(lg_k as nat) { lemma_dco_zero(lg_k, num_coupons); } }
         match determine_flavor(lg_k, num_coupons) {
@@ -583,14 +609,14 @@ impl CompressedState {
     fn uncompress_sparse_flavor(&self, lg_k: u8) -> (r: UncompressedState)
       requires decode_validated(*self, lg_k),
         /*@C14.cpc.decode.flags_vs_flavor*/ flags_fit(*self, Flavor::Sparse),
-      ensures uncompressed_shape(r, lg_k, Flavor::Sparse),
+      ensures uncompressed_shape(r, lg_k, Flavor::Sparse), r.table.num_items == self.table_num_entries,
     { unimplemented!() }
 
     fn uncompress_hybrid_flavor(&self, lg_k: u8) -> (r: UncompressedState)
       requires decode_validated(*self, lg_k),
         /*@C14.cpc.decode.flags_vs_flavor*/ flags_fit(*self, Flavor::Hybrid),
       ensures uncompressed_shape(r, lg_k, Flavor::Hybrid),
-        /*@C13.cpc.decode.hybrid.table_cols*/ forall|x: u32| r.table.holds(x) ==> (x & 63) >= 8,
+        /*@C13.cpc.decode.hybrid.table_cols*/ forall|x: u32| r.table.items().contains(x) ==> (x & 63) >= 8,
     {
         debug_assert!(self.window_data.is_empty());
         debug_assert!(!self.table_data.is_empty());
@@ -639,7 +665,7 @@ impl CompressedState {
       requires decode_validated(*self, lg_k),
         /*@C14.cpc.decode.flags_vs_flavor*/ flags_fit(*self, Flavor::Pinned),
       ensures uncompressed_shape(r, lg_k, Flavor::Pinned),
-        /*@C13.cpc.decode.pinned.table_cols*/ forall|x: u32| r.table.holds(x) ==> (x & 63) >= 8,
+        /*@C13.cpc.decode.pinned.table_cols*/ forall|x: u32| r.table.items().contains(x) ==> (x & 63) >= 8,
     {
         debug_assert!(!self.window_data.is_empty());
 
@@ -684,7 +710,7 @@ impl CompressedState {
         /*@C14.cpc.decode.flags_vs_flavor*/ flags_fit(*self, Flavor::Sliding),
         flavor_spec(lg_k, num_coupons) is Sliding,
       ensures uncompressed_shape(r, lg_k, Flavor::Sliding),
-        /*@C13.cpc.decode.sliding.table_cols*/ dco(lg_k, num_coupons) <= 56 ==> forall|x: u32| r.table.holds(x) ==> !(dco(lg_k, num_coupons) <= (x & 63) < dco(lg_k, num_coupons) + 8),
+        /*@C13.cpc.decode.sliding.table_cols*/ dco(lg_k, num_coupons) <= 56 ==> forall|x: u32| r.table.items().contains(x) ==> !(dco(lg_k, num_coupons) <= (x & 63) < dco(lg_k, num_coupons) + 8),
     {
         debug_assert!(!self.window_data.is_empty());
 
